@@ -1327,6 +1327,26 @@ impl SwarmDriver {
     pub fn verif_fetcher_age(&mut self, d: Duration) {
         self.replication_fetcher.verif_age(d)
     }
+    /// Issues recorded against peers: (peer, issue names in recording order, considered bad).
+    pub fn verif_node_issues(&self) -> Vec<(PeerId, Vec<String>, bool)> {
+        self.bad_nodes
+            .iter()
+            .map(|(p, (issues, bad))| {
+                (
+                    *p,
+                    issues.iter().map(|(i, _)| format!("{i:?}")).collect(),
+                    *bad,
+                )
+            })
+            .collect()
+    }
+    /// The reference quote kept per peer for the historical quote check.
+    pub fn verif_quotes_history(&self) -> Vec<(PeerId, ant_evm::PaymentQuote)> {
+        self.quotes_history
+            .iter()
+            .map(|(p, q)| (*p, q.clone()))
+            .collect()
+    }
 }
 
 #[cfg(test)]
